@@ -108,7 +108,8 @@ PLAN = {
 }
 PLAN["thorough"]["C10"] = ["dup_a", "dup_b", "succ_a", "succ_b", "pair_r", "pair_rr", "one_a", "one_d", "pair_a", "pair_b", "chain_a"]
 PLAN["thorough"]["C04"] += ["pair_r", "pair_rr"]
-PLAN["thorough"]["C08"] += ["pair_r", "pair_rr"]
+# (the supervision-tree clauses speak about parents and children: the single-actor instances add nothing to them)
+PLAN["thorough"]["C08"] = ["one_a", "pair_a", "pair_b", "pair_r", "pair_rr", "chain_a", "chain_b", "fan_a"]
 PLAN["thorough"]["C12"].append("dup_a")
 _unused = {
 }
